@@ -4,8 +4,9 @@ pyrtl/conditional.py.
 Translated (become Gallina definitions; Front/CondRules.v proves they are what Front/Cond.v models):
   _pred_sets_are_in_conflict   the loop condition and the two returned constants
   _push_condition              the predicate-width guard
-  _current_select              the two conjuncts added to `select` and the two polarities added to
-                               `pred_set` (between-otherwise-and-current / current predicate)
+  _current_select              WHOLE function: and_with_possible_none, between_otherwise_and_current (index of
+                               the last otherwise, the slices), the two conjuncts added to `select` and the two
+                               polarities added to `pred_set`; assembled as gen_current_select over the stack
   _finalize                    the default selection (declared / register itself / 0), the select step of
                                the wire fold, the three initial values and the three select steps of the
                                memory write-port fold
@@ -293,27 +294,123 @@ def frag_state_machine(tree, out):
         ''', '_check_no_nesting')
 
 
+# ------------------------------------------------------------------ the two inner helpers of _current_select
+def tr_and_with_possible_none(fn):
+    """`if a is None: return b` / `if b is None: return a` / `return a & b` over (a b : option bexpr)"""
+    names = argnames(fn)
+    if len(names) != 2:
+        raise U('and_with_possible_none: two parameters expected')
+    stmts = [s for s in body(fn) if not isinstance(s, ast.Assert)]   # an assert does not change the value
+
+    def ret(e, somes):
+        if isinstance(e, ast.Name) and e.id in names:
+            return ('(Some %s\')' % e.id) if e.id in somes else e.id
+        if isinstance(e, ast.BinOp) and isinstance(e.op, ast.BitAnd) and isinstance(e.left, ast.Name) \
+                and isinstance(e.right, ast.Name) and e.left.id in somes and e.right.id in somes:
+            return "(Some (BAnd %s' %s'))" % (e.left.id, e.right.id)
+        raise U('and_with_possible_none: return value not translatable: %s' % ast.unparse(e))
+
+    def go(k, somes):
+        if k >= len(stmts):
+            raise U('and_with_possible_none: falls off the end')
+        st = stmts[k]
+        if isinstance(st, ast.Return) and st.value is not None:
+            return ret(st.value, somes)
+        if isinstance(st, ast.If) and not st.orelse and len(st.body) == 1 and isinstance(st.body[0], ast.Return) \
+                and isinstance(st.test, ast.Compare) and len(st.test.ops) == 1 and isinstance(st.test.ops[0], ast.Is) \
+                and isinstance(st.test.left, ast.Name) and st.test.left.id in names and st.test.left.id not in somes \
+                and isinstance(st.test.comparators[0], ast.Constant) and st.test.comparators[0].value is None:
+            n = st.test.left.id
+            return "match %s with None => %s | Some %s' => %s end" % (
+                n, ret(st.body[0].value, somes), n, go(k + 1, somes | {n}))
+        raise U('and_with_possible_none: statement not translatable: %s' % ast.unparse(st)[:80])
+    return ('(* and_with_possible_none *)\nDefinition gen_and_with_possible_none (%s %s : option bexpr) : option bexpr :=\n  %s.'
+            % (names[0], names[1], go(0, frozenset())))
+
+
+def tr_between(fn):
+    """between_otherwise_and_current(predlist): `acc = None; for i, p in enumerate(SLICE): if p is otherwise:
+    acc = i` then `if acc is None: return SLICE else: return SLICE` over (predlist : list cond)"""
+    (pl,) = argnames(fn)
+    st = body(fn)
+    if len(st) != 3:
+        raise U('between_otherwise_and_current: expected init / loop / if-return')
+    init, loop, fin = st
+    if not (isinstance(init, ast.Assign) and len(init.targets) == 1 and isinstance(init.targets[0], ast.Name)
+            and isinstance(init.value, ast.Constant) and init.value.value is None):
+        raise U('between_otherwise_and_current: expected `<name> = None`')
+    acc = init.targets[0].id
+
+    def index(e, known):
+        if isinstance(e, ast.Name) and e.id == acc and known:
+            return acc
+        if isinstance(e, ast.Constant) and isinstance(e.value, int) and not isinstance(e.value, bool) and e.value >= 0:
+            return str(e.value)
+        if isinstance(e, ast.BinOp) and isinstance(e.op, (ast.Add, ast.Sub)):
+            return '(%s %s %s)' % (index(e.left, known), '+' if isinstance(e.op, ast.Add) else '-', index(e.right, known))
+        raise U('between_otherwise_and_current: index not translatable: %s' % ast.unparse(e))
+
+    def minus1(e):
+        return isinstance(e, ast.UnaryOp) and isinstance(e.op, ast.USub) and isinstance(e.operand, ast.Constant) \
+            and e.operand.value == 1
+
+    def seq(e, known):
+        if isinstance(e, ast.Name) and e.id == pl:
+            return pl
+        if isinstance(e, ast.Subscript) and isinstance(e.value, ast.Name) and e.value.id == pl \
+                and isinstance(e.slice, ast.Slice) and e.slice.step is None:
+            lo, hi = e.slice.lower, e.slice.upper
+            if hi is None:
+                base = pl
+            elif minus1(hi):
+                base = '(removelast %s)' % pl
+            else:
+                raise U('between_otherwise_and_current: slice upper bound must be absent or -1')
+            if lo is None:
+                return base
+            return '(skipn (Z.to_nat %s) %s)' % (index(lo, known), base)
+        raise U('between_otherwise_and_current: sequence not translatable: %s' % ast.unparse(e))
+    ok = (isinstance(loop, ast.For) and not loop.orelse and isinstance(loop.target, ast.Tuple) and len(loop.target.elts) == 2
+          and all(isinstance(x, ast.Name) for x in loop.target.elts)
+          and isinstance(loop.iter, ast.Call) and isinstance(loop.iter.func, ast.Name) and loop.iter.func.id == 'enumerate'
+          and len(loop.iter.args) == 1 and not loop.iter.keywords and len(loop.body) == 1 and isinstance(loop.body[0], ast.If)
+          and not loop.body[0].orelse and len(loop.body[0].body) == 1)
+    if not ok:
+        raise U('between_otherwise_and_current: loop is not `for i, p in enumerate(..): if ..: %s = i`' % acc)
+    iv, pv = loop.target.elts[0].id, loop.target.elts[1].id
+    upd = loop.body[0].body[0]
+    if not (isinstance(upd, ast.Assign) and len(upd.targets) == 1 and isinstance(upd.targets[0], ast.Name)
+            and upd.targets[0].id == acc and isinstance(upd.value, ast.Name) and upd.value.id == iv):
+        raise U('between_otherwise_and_current: loop body must be `%s = %s`' % (acc, iv))
+    t = loop.body[0].test
+    if not (isinstance(t, ast.Compare) and len(t.ops) == 1 and isinstance(t.left, ast.Name) and t.left.id == pv
+            and isinstance(t.comparators[0], ast.Name) and t.comparators[0].id == 'otherwise'
+            and isinstance(t.ops[0], (ast.Is, ast.IsNot))):
+        raise U('between_otherwise_and_current: loop test must be `%s is [not] otherwise`' % pv)
+    cond = 'is_oth (snd ip)' if isinstance(t.ops[0], ast.Is) else 'negb (is_oth (snd ip))'
+    if not (isinstance(fin, ast.If) and len(fin.body) == 1 and len(fin.orelse) == 1
+            and isinstance(fin.body[0], ast.Return) and isinstance(fin.orelse[0], ast.Return)
+            and isinstance(fin.test, ast.Compare) and len(fin.test.ops) == 1 and isinstance(fin.test.left, ast.Name)
+            and fin.test.left.id == acc and isinstance(fin.test.comparators[0], ast.Constant)
+            and fin.test.comparators[0].value is None and isinstance(fin.test.ops[0], (ast.Is, ast.IsNot))):
+        raise U('between_otherwise_and_current: expected `if %s is None: return .. else: return ..`' % acc)
+    none_ret, some_ret = fin.body[0].value, fin.orelse[0].value
+    if isinstance(fin.test.ops[0], ast.IsNot):
+        none_ret, some_ret = some_ret, none_ret
+    return ('(* between_otherwise_and_current: indices are positions in `%s`; python order (oldest sibling first) *)\n'
+            'Definition gen_between_otherwise_and_current (%s : list cond) : list cond :=\n'
+            '  let %s := fold_left (fun (%s : option Z) (ip : Z * cond) => if %s then Some (fst ip) else %s)\n'
+            '                      (enum_from 0 %s) None in\n'
+            '  match %s with\n  | None => %s\n  | Some %s => %s\n  end.'
+            % (ast.unparse(loop.iter.args[0]), pl, acc, acc, cond, acc, seq(loop.iter.args[0], False),
+               acc, seq(none_ret, False), acc, seq(some_ret, True)))
+
+
 def frag_current_select(tree, out):
     fn = pyfrag.find_def(tree, '_current_select')
     st = copy.deepcopy(body(fn))
-    require_stmts(body(pyfrag.find_def(tree, '_current_select.and_with_possible_none')), '''
-        assert a is not None or b is not None
-        if a is None:
-            return b
-        if b is None:
-            return a
-        return a & b
-        ''', 'and_with_possible_none')
-    require_stmts(body(pyfrag.find_def(tree, '_current_select.between_otherwise_and_current')), '''
-        lastother = None
-        for i, p in enumerate(predlist[:-1]):
-            if p is otherwise:
-                lastother = i
-        if lastother is None:
-            return predlist[:-1]
-        else:
-            return predlist[lastother + 1:-1]
-        ''', 'between_otherwise_and_current')
+    out.append(tr_and_with_possible_none(pyfrag.find_def(tree, '_current_select.and_with_possible_none')))
+    out.append(tr_between(pyfrag.find_def(tree, '_current_select.between_otherwise_and_current')))
     rest = [s for s in st if not isinstance(s, ast.FunctionDef)]
     loops = [s for s in rest if isinstance(s, ast.For)]
     if len(loops) != 1:
@@ -340,6 +437,25 @@ def frag_current_select(tree, out):
     out.append('(* the current predicate: select &= `%s` ; pred_set.add((predicate, %s)) *)' % (ast.unparse(e2), f2.value))
     out.append('Definition gen_current_expr (predicate : Z) : bexpr := %s.' % tr_bexpr(e2))
     out.append('Definition gen_current_flag : bool := %s.' % ('true' if f2.value else 'false'))
+    out.append("""(* _current_select assembled from the pieces above; the loop skeleton is the one shape-checked below.
+   `stack` is _conditions_list_stack in python order (outermost level first, oldest sibling first). *)
+Definition gen_level (acc : option bexpr * list lit) (predlist : list cond) : option bexpr * list lit :=
+  let acc1 :=
+    fold_left (fun (acc : option bexpr * list lit) (c : cond) =>
+                 match c with
+                 | CP predicate => (gen_and_with_possible_none (fst acc) (Some (gen_between_expr predicate)),
+                                    snd acc ++ [(predicate, gen_between_flag)])
+                 | COth => acc      (* `~otherwise` would be a TypeError; the bridge proves it never occurs *)
+                 end)
+              (gen_between_otherwise_and_current predlist) acc in
+  match last predlist COth with
+  | CP predicate => (gen_and_with_possible_none (fst acc1) (Some (gen_current_expr predicate)),
+                     snd acc1 ++ [(predicate, gen_current_flag)])
+  | COth => acc1
+  end.
+
+Definition gen_current_select (stack : list (list cond)) : option bexpr * list lit :=
+  fold_left gen_level (removelast stack) (None, []).""")
     sel1.args[1] = hole('E1')
     sel2.args[1] = hole('E2')
     add1.elts[1] = hole('F1')
